@@ -26,21 +26,28 @@ Inductive case :=
 
 Definition face_rows (fs : list face) : list (list nat) := map (fun f => [fget f 0; fget f 1; fget f 2]) fs.
 
-(* magnitude of the input data: a cut vertex is obtained by cancellation, its rounding error is relative to it.  No absolute
-   floor: meshes of size 1e-12 are compared as strictly (relative to their size) as meshes of size 1 *)
+(* Tolerance on the returned coordinates, ABSOLUTE and made of two parts:
+   - 1e-11 * feature size, the feature size being the largest |v - reference point| over the input vertices: a cut vertex is
+     p + t (q - p) with t computed from offsets of that size in a handful of flops.  It is NOT relative to the magnitude of the
+     coordinates: a small mesh far from the origin is compared as strictly as the same mesh at the origin (a formula that
+     subtracts two large dot products instead of taking differences first must not pass);
+   - 2^-50 * coordinate magnitude (4 units in the last place): binary64 cannot store a coordinate more precisely.
+   No absolute floor: meshes of size 1e-12 are compared as strictly, relative to their size, as meshes of size 1. *)
 Definition vmag (v : vec3 Q) : Q := Qmax' (Qabs (vx v)) (Qmax' (Qabs (vy v)) (Qabs (vz v))).
 Definition mesh_mag (vs : list (vec3 Q)) (ref : vec3 Q) : Q :=
   fold_left (fun m p => Qmax' m (vmag p)) vs (vmag ref).
-(* 1e-11 relative to the magnitude of the input: a cut vertex costs a handful of flops *)
+Definition mesh_feat (vs : list (vec3 Q)) (ref : vec3 Q) : Q :=
+  fold_left (fun m p => Qmax' m (vmag (vsub QOps p ref))) vs 0.
 Definition stol : Q := 1 # 100000000000.
-Definition close_rel (mag a b : Q) : bool :=
-  Qle_bool (Qabs (a - b)) (stol * Qmax' mag (Qmax' (Qabs a) (Qabs b))).
-Definition fl_close_rel (mag m : Q) (o : fl) : bool := match o with Fin q => close_rel mag m q | _ => false end.
-Definition vec_close_rel mag (m : vec3 Q) (o : list fl) : bool := all2 (fl_close_rel mag) (vlist m) o.
-Definition vecs_close_rel mag (m : list (vec3 Q)) (o : list (list fl)) : bool := all2 (vec_close_rel mag) m o.
+Definition ueps : Q := 1 # 1125899906842624.
+Definition coord_tol (vs : list (vec3 Q)) (ref : vec3 Q) : Q := stol * mesh_feat vs ref + ueps * mesh_mag vs ref.
+Definition close_abs (t a b : Q) : bool := Qle_bool (Qabs (a - b)) t.
+Definition fl_close_abs (t m : Q) (o : fl) : bool := match o with Fin q => close_abs t m q | _ => false end.
+Definition vec_close_abs t (m : vec3 Q) (o : list fl) : bool := all2 (fl_close_abs t) (vlist m) o.
+Definition vecs_close_abs t (m : list (vec3 Q)) (o : list (list fl)) : bool := all2 (vec_close_abs t) m o.
 
-Definition check_obs (mag : Q) (m : mesh_out Q) (o : obs) : bool :=
-  vecs_close_rel mag (mo_v m) (ob_v o) &&
+Definition check_obs (t : Q) (m : mesh_out Q) (o : obs) : bool :=
+  vecs_close_abs t (mo_v m) (ob_v o) &&
   all2 nat_list_eqb (face_rows (mo_f m)) (ob_f o) &&
   match ob_map o with None => true | Some mp => nat_list_eqb (mo_map m) mp end &&
   Nat.eqb (ob_vcols o) 3 && Nat.eqb (ob_fcols o) 3 && ob_ndims_ok o &&
@@ -63,9 +70,9 @@ Definition vdtype_eqb (a b : vdtype) : bool :=
 Definition check_slicing (c : case) : bool :=
   match c with
   | CSlice vdt fdt vs fs ref n mask o =>
-      res_agree (check_obs (mesh_mag vs ref)) (slice_triangles_by_plane QOps vs fs ref n mask) o &&
+      res_agree (check_obs (coord_tol vs ref)) (slice_triangles_by_plane QOps vs fs ref n mask) o &&
       check_dtypes (slice_triangles_by_plane_dtypes QOps vdt fdt vs fs ref n mask) o
-  | CSliceZ vs fsz ref n mask o => res_agree (check_obs (mesh_mag vs ref)) (slice_triangles_by_plane_z QOps vs fsz ref n mask) o
+  | CSliceZ vs fsz ref n mask o => res_agree (check_obs (coord_tol vs ref)) (slice_triangles_by_plane_z QOps vs fsz ref n mask) o
   | CKernelDt vdt fdt vs fs ref n mask o =>
       res_agree (fun d ob => vdtype_eqb (dt_v d) (fst ob) && Bool.eqb (is_i64 (dt_f d)) (snd ob))
                 (rbind (slice_faces_plane_path QOps (merge_tol QOps) vs fs n ref (option_map flatnonzero mask))
